@@ -18,13 +18,23 @@ class ExtractError(Exception):
     pass
 
 
+def _unlimit():
+    """the address-space limit bin/verif puts on the analysis itself does not apply to the compiler"""
+    import resource
+    try:
+        _s, hard = resource.getrlimit(resource.RLIMIT_AS)
+        resource.setrlimit(resource.RLIMIT_AS, (hard, hard))
+    except Exception:
+        pass
+
+
 def nightly_sysroot():
     return subprocess.check_output(["rustc", "+nightly", "--print", "sysroot"], text=True).strip()
 
 
 def build_driver(force=False):
     env = dict(os.environ, CARGO_TARGET_DIR=os.path.join(CACHE, "driver-target"), CARGO_NET_OFFLINE="true")
-    r = subprocess.run(["cargo", "+nightly", "build", "--release", "--offline"],
+    r = subprocess.run(["cargo", "+nightly", "build", "--release", "--offline"], preexec_fn=_unlimit,
                        cwd=os.path.join(VERIF, "driver"), env=env, stdout=subprocess.PIPE,
                        stderr=subprocess.STDOUT, text=True)
     if r.returncode != 0 or not os.path.exists(DRIVER):
@@ -151,7 +161,7 @@ def _extract_locked(config, repo, out, tgt, pkgs, feats, expected, extra_flags, 
         if feats:
             cmd += ["--features", ",".join(feats)]
     t0 = time.time()
-    r = subprocess.run(cmd, cwd=repo, env=env, stdout=subprocess.PIPE, stderr=subprocess.STDOUT, text=True)
+    r = subprocess.run(cmd, cwd=repo, env=env, stdout=subprocess.PIPE, stderr=subprocess.STDOUT, text=True, preexec_fn=_unlimit)
     if r.returncode != 0:
         raise ExtractError("cargo check failed for config %s:\n%s" % (config, r.stdout[-6000:]))
     missing = [c for c in expected if not os.path.exists(os.path.join(out, c + ".json"))]
